@@ -96,12 +96,13 @@ def counts_oracle(T, G, E, replay_base):
     saved = dict(T.file_pws_per_level())
     got = {}
     undecided = 0
-    for p in T.valid:
+    from collections import Counter
+    for p, n in Counter(T.valid).items():
         decided, hits = ol.guesser_level(p, E)
         if hits:
-            got[hits[0]] = got.get(hits[0], 0) + 1
+            got[hits[0]] = got.get(hits[0], 0) + n
         elif not decided:
-            undecided += 1
+            undecided += n
     if undecided:
         return vio
     top = max(E) if E else -1
@@ -124,8 +125,8 @@ def explore(ctx, cfg, sc_dir, idx, budget):
     E = {}
     errs = []
     if G is not None:
-        tl = [T.trainer_level(p) for p in T.valid]
-        top = min(max([l for l in tl if l >= 0] + [2]) + 1, 14)
+        tl = [T.trainer_level(p) for p in set(T.valid)]
+        top = min(max([l for l in tl if l >= 0] + [2]) + 1, 22 if cfg["kind"].startswith("extreme") else 14)
         E = ol.enumerate_sets(G, range(0, top + 1), cap=budget["cap"], seconds=budget["per_level"],
                               total_seconds=budget["per_model"])
         # only a prefix of completely enumerated levels is used for "not emitted" conclusions
@@ -178,7 +179,7 @@ def coq_case(T, sc, G, E, rows, consts):
         if complete and len(lst) <= 150 and budget - len(lst) >= 0 and L <= 12:
             budget -= len(lst)
             levels.append("(%d%%nat, %s)" % (L, common.clist([common.cstr(s) for s in lst]) if lst else "(@nil (list N))"))
-    counts = ["(%s, %d%%nat)" % (ol.coq_level(k), v) for k, v in T.levels_count.items()]
+    counts = ["(%s, %d%%N)" % (ol.coq_level(k), v) for k, v in T.levels_count.items()]
     sbreaks = "guesser_linebreaks" if consts["scorer_uses_codecs_reader"] else "scorer_breaks"
     return "(mk_c11case %s\n %s\n %s\n %s\n %s\n %s\n %s\n %s\n %s\n %s %s guesser_linebreaks %s %s)" % (
         ol.coq_tables(T.tables),
@@ -187,8 +188,8 @@ def coq_case(T, sc, G, E, rows, consts):
         common.clist(["%d%%nat" % int(x) for x in T.raw_lines("LN.level", "ascii")]) if T.raw_lines("LN.level", "ascii") else "(@nil nat)",
         "[" + ";\n  ".join(sobs) + "]" if sobs else "(@nil sobs)",
         "[" + ";\n  ".join(levels) + "]" if levels else "(@nil (nat * list (list N)))",
-        common.clist([common.cstr(p) for p in T.valid]) if T.valid else "(@nil (list N))",
-        common.clist(counts) if counts else "(@nil (option nat * nat))",
+        ol.coq_pws_rle(T.valid),
+        common.clist(counts) if counts else "(@nil (option nat * N))",
         common.cbool(decoded_ok(T, consts)), sbreaks, common.cbool(sc is not None), common.cbool(G is not None))
 
 
@@ -206,12 +207,18 @@ def run(ctx):
     sc_dir = common.scratch()
     vio, samples, cases, case_cfg = [], [], [], []
     dist = {"models": 0, "unusable_lists": 0, "kinds": {}, "encodings": {}, "ngram": {}, "strings": 0,
+            "seen_cp_at_cap_level": 0, "seen_length_at_cap_level": 0, "ip_levels": {}, "cp_levels": {}, "ln_levels": {},
+            "strings_using_seen_cap_cp": 0,
             "by_origin": {}, "trainer_level_hist": {}, "unparsable": 0, "guesser_decided": 0, "guesser_undecided": 0,
             "levels_enumerated": 0, "levels_capped": 0, "scorer_loaded": 0, "guesser_loaded": 0}
     seen, nontrivial = set(), 0
     kinds = list(ol.KINDS)
     for i in range(n):
-        cfg = ol.gen_training(ctx.rng, kinds[i % len(kinds)] if i < 2 * len(kinds) else None)
+        if i in (1, 9) or (i > 30 and i % 40 == 0):
+            kind = "extreme"        # CP / LN smoothed to the cap level 10 although seen; IP levels 5..6 and 10
+        else:
+            kind = kinds[i % len(kinds)] if i < 2 * len(kinds) else None
+        cfg = ol.gen_training(ctx.rng, kind)
         try:
             r = explore(ctx, cfg, sc_dir, i, budget)
         except ZeroDivisionError:
@@ -222,6 +229,20 @@ def run(ctx):
         T, sc, G, E, cands, rows, v = r
         vio += v
         dist["models"] += 1
+        g = T.trainer.grammar
+        cap_cps = {k + c for k, d in g.items() for c, lv in d["next_letter"].items() if lv[0] >= 10 and lv[1] > 0}
+        dist["seen_cp_at_cap_level"] += len(cap_cps)
+        dist["seen_length_at_cap_level"] += sum(1 for lv in T.trainer.ln_lookup if lv[0] >= 10 and lv[1] > 0)
+        for k, d in g.items():
+            dist["ip_levels"][str(d["ip_level"])] = dist["ip_levels"].get(str(d["ip_level"]), 0) + 1
+            for c, lv in d["next_letter"].items():
+                dist["cp_levels"][str(lv[0])] = dist["cp_levels"].get(str(lv[0]), 0) + 1
+        for lv in T.trainer.ln_lookup:
+            dist["ln_levels"][str(lv[0])] = dist["ln_levels"].get(str(lv[0]), 0) + 1
+        ngm = T.trainer.ngram
+        dist["strings_using_seen_cap_cp"] += sum(
+            1 for row in rows if row["trainer"] is not None and
+            any(row["s"][j:j + ngm] in cap_cps for j in range(len(row["s"]) - ngm + 1)))
         dist["kinds"][cfg["kind"]] = dist["kinds"].get(cfg["kind"], 0) + 1
         dist["encodings"][cfg["encoding"]] = dist["encodings"].get(cfg["encoding"], 0) + 1
         dist["ngram"][cfg["ngram"]] = dist["ngram"].get(cfg["ngram"], 0) + 1
@@ -276,7 +297,8 @@ def run(ctx):
             corr.append(("omen-level:" + name, True, ""))
     rule = ("generated training lists (3-40 passwords, alphabets of 2-8 symbols, n-gram 2-4; families: dominated by length = "
             "n-gram, single length, mixed, alphabet smaller than the character set, duplicates, non-ASCII in utf-8 / latin-1 / "
-            "cp1251, long, empty CP) trained in-process with the real trainer objects and written by the real writer; per model "
+            "cp1251, long, empty CP, and 'extreme ratio' lists of ~100k weighted passwords in which a seen transition and a "
+            "seen length are smoothed to the cap level 10) trained in-process with the real trainer objects and written by the real writer; per model "
             "the candidate strings are the training passwords, members of enumerated levels, walks of every boundary length "
             "(0, 1, ngram-1, ngram, ngram+1, max-1, max, max+1, max+2), foreign-character and one-character mutations; each is "
             "put to find_omen_level, OmenScorer.parse and the per-level MarkovCracker output; non-trivial = the string has a "
@@ -301,7 +323,7 @@ def check_one(rng, cfg, string, budget):
     E = {}
     vio = []
     if G is not None:
-        tl = [T.trainer_level(p) for p in T.valid]
+        tl = [T.trainer_level(p) for p in set(T.valid)]
         if string is not None:
             tl.append(T.trainer_level(string))
         top = min(max([l for l in tl if l >= 0] + [2]) + 1, 16)
